@@ -97,6 +97,13 @@ func (c *ProgCase) Judge(rs []Res, env *Env) Outcome {
 						ob.Stmt, p.Stmts[ob.Stmt].Line(), what, ob.Value, uint64(want)&mask, hexOut, src)})
 				return o
 			}
+			if prop == "C05" || prop == "C06" {
+				o.Status = Violated
+				o.Viols = append(o.Viols, Violation{Sig: fmt.Sprintf("%s|loc-advance|%s|drift=%+d", prop, c.Ctx, int64(uint64(want)&mask)-int64(uint64(ob.Value)&mask)),
+					Detail: fmt.Sprintf("the location counter did not advance by the bytes emitted: statement %d `%s` embeds %s = %#x, but it really is at %#x; output %s; program:\n%s",
+						ob.Stmt, p.Stmts[ob.Stmt].Line(), what, ob.Value, uint64(want)&mask, hexOut, src)})
+				return o
+			}
 			if prop == "C03" {
 				o.Status = Violated
 				o.Viols = append(o.Viols, Violation{Sig: fmt.Sprintf("C03|%s|m%d|%s|drift=%+d", kind, w.ModeAt[ob.Stmt], culprit, int64(uint64(want)&mask)-int64(uint64(ob.Value)&mask)),
@@ -164,6 +171,19 @@ func (c *ProgCase) Judge(rs []Res, env *Env) Outcome {
 	if prop == "C04" && w.FailAt >= 0 && w.FailAt < len(p.Stmts) && p.Stmts[w.FailAt].K == "jmp" && w.FailKind == "encoding" {
 		o.Status = Violated
 		o.Viols = []Violation{{Sig: fmt.Sprintf("C04|wrong-branch|m%d|%s", w.ModeAt[w.FailAt], c.Ctx),
+			Detail: fmt.Sprintf("%s; output %s; program:\n%s", w.FailWhy, hexOut, src)}}
+		return o
+	}
+	if (prop == "C05" || prop == "C06") && w.FailAt >= 0 {
+		tag, kindOf := "end", "end"
+		if w.FailAt < len(p.Stmts) {
+			tag, kindOf = p.Stmts[w.FailAt].Tag, p.Stmts[w.FailAt].K
+		}
+		if tag == "" {
+			tag = kindOf
+		}
+		o.Status = Violated
+		o.Viols = []Violation{{Sig: fmt.Sprintf("%s|%s|%s", prop, tag, w.FailKind),
 			Detail: fmt.Sprintf("%s; output %s; program:\n%s", w.FailWhy, hexOut, src)}}
 		return o
 	}
